@@ -3,6 +3,7 @@
 From Coq Require Import List String Ascii ZArith NArith Bool Lia Permutation.
 From Qryn Require Import model.IngestRobust model.IngestPipe proofs.IngestRobustProofs.
 Import ListNotations.
+Local Open Scope list_scope.
 
 (* ------------------------------------------------------------------------------------------ *)
 (** * 1. The parser goroutines follow the channel protocol, whatever the decoder does *)
@@ -184,10 +185,8 @@ Lemma spans_served : forall evs st w, world_ok w = true -> span_st_ok st ->
   served (serve tame_model spans_prog consumer_model ctx_traces w (spans_dres st evs)).
 Proof.
   intros evs st w Hw Hst. rewrite (serve_protocol _ _ _ _ _ (run_spans_prog _)).
-  rewrite <- sends_of_protocol. rewrite <- (run_spans_prog (spans_dres st evs)) at 1 2.
-  change (protocol_trace (spans_dres st evs) [d_batch (spans_dres st evs)])
-    with (fst (protocol_trace (spans_dres st evs) [d_batch (spans_dres st evs)], false)).
-  rewrite <- run_spans_prog, spans_prog_sends.
+  pose proof (spans_prog_sends st evs) as H. rewrite run_spans_prog in H. cbn [fst] in H.
+  rewrite sends_of_protocol in H. rewrite H.
   apply end_of_parse_served; apply (spans_no_crash evs st w false Hw Hst).
 Qed.
 
@@ -195,10 +194,8 @@ Lemma logs_served : forall evs st w, world_ok w = true -> ts_ok (ls_ts st) ->
   served (serve tame_model logs_prog consumer_model ctx_logs w (logs_dres st evs)).
 Proof.
   intros evs st w Hw Hst. rewrite (serve_protocol _ _ _ _ _ (run_logs_prog _)).
-  rewrite <- sends_of_protocol.
-  change (protocol_trace (logs_dres st evs) [d_batch (logs_dres st evs)])
-    with (fst (protocol_trace (logs_dres st evs) [d_batch (logs_dres st evs)], false)).
-  rewrite <- run_logs_prog, logs_prog_sends.
+  pose proof (logs_prog_sends st evs) as H. rewrite run_logs_prog in H. cbn [fst] in H.
+  rewrite sends_of_protocol in H. rewrite H.
   apply end_of_parse_served; apply (logs_no_crash evs st w false Hw Hst).
 Qed.
 
@@ -206,10 +203,8 @@ Lemma prof_served : forall evs rows w, world_ok w = true ->
   served (serve tame_model prof_prog consumer_model ctx_logs w (prof_dres rows evs)).
 Proof.
   intros evs rows w Hw. rewrite (serve_protocol _ _ _ _ _ (run_prof_prog _)).
-  rewrite <- sends_of_protocol.
-  change (protocol_trace (prof_dres rows evs) (if d_rows (prof_dres rows evs) then [d_batch (prof_dres rows evs)] else []))
-    with (fst (protocol_trace (prof_dres rows evs) (if d_rows (prof_dres rows evs) then [d_batch (prof_dres rows evs)] else []), false)).
-  rewrite <- run_prof_prog, prof_prog_sends.
+  pose proof (prof_prog_sends rows evs) as H. rewrite run_prof_prog in H. cbn [fst] in H.
+  rewrite sends_of_protocol in H. rewrite H.
   apply end_of_parse_served; apply (prof_no_crash evs rows w false Hw).
 Qed.
 
@@ -250,7 +245,10 @@ Proof. vm_compute. reflexivity. Qed.
 Definition const_cols (fields : list string) (n : N) : cols := map (fun f => (f, n)) fields.
 
 Lemma rect_const : forall fields n, rect n (const_cols fields n) = true.
-Proof. induction fields as [|f r IH]; intros n; cbn; [reflexivity|]. now rewrite N.eqb_refl, IH. Qed.
+Proof.
+  intros fields n. unfold rect, const_cols. apply forallb_forall. intros [k v] Hin.
+  apply in_map_iff in Hin as [f [E _]]. inversion E; subst. cbn [snd]. apply N.eqb_refl.
+Qed.
 Lemma rectangular_const : forall fields n, rectangular (const_cols fields n) = true.
 Proof. intros [|f r] n; [reflexivity|]. cbn [const_cols map rectangular snd]. apply (rect_const (f :: r) n). Qed.
 
@@ -348,7 +346,7 @@ Section HANDLER.
     induction todo as [|t IH]; intros b i nv b' Hb H; cbn [exec_loop] in H.
     - inversion H; subst. exact Hb.
     - destruct (exec_cops b (hp_loop h) i nv) as [b1|] eqn:E; [|discriminate].
-      apply (IH _ _ _ _ (b := b1)) in H; [exact H|].
+      apply (IH b1 (S i) nv b'); [|exact H].
       destruct Hb as [n [k [Hs Ha]]]. destruct (exec_cops_counts _ _ _ _ _ E) as [Hs1 [Ha1 _]].
       exists n, (k + 1)%N. rewrite Hs1, Ha1, Hs, Ha. split; [apply add_counts_const_0; exact Hn|apply add_counts_const_1; exact Hl].
   Qed.
@@ -424,6 +422,16 @@ Proof.
   rewrite app_length. pose proof (on_span_out_len _ _ _ _ E). cbn [List.length]. lia.
 Qed.
 
+Lemma on_span_size : forall st r st' out, on_span st r = inl (st', out) ->
+  (out = [] /\ ss_size st' = ss_size st + si_bytes r + si_abytes r)%N \/
+  (exists p, out = [p] /\ st' = span_st0 /\ (MiB < ss_size st + si_bytes r + si_abytes r)%N).
+Proof.
+  intros st r st' out H. unfold on_span in H. destruct (negb _); [discriminate|]. cbn [ss_size] in H.
+  destruct (N.ltb_spec MiB (ss_size st + si_bytes r + si_abytes r)) as [Hlt|Hge]; inversion H; subst; clear H.
+  - right. eexists. split; [reflexivity|split; [reflexivity|exact Hlt]].
+  - left. split; reflexivity.
+Qed.
+
 (* ... and every flush needs more than 1 MiB of accumulated spans: flushes * 1 MiB <= bytes in the request *)
 Lemma decode_spans_flush_bytes : forall evs st,
   let '(f, _, s) := decode_spans_with on_span st evs in
@@ -431,13 +439,11 @@ Lemma decode_spans_flush_bytes : forall evs st,
 Proof.
   induction evs as [|ev evs IH]; intros st; cbn [decode_spans_with span_bytes]; [cbn; lia|].
   destruct ev as [r| |x]; try (cbn [List.length]; lia).
-  unfold on_span. destruct (negb _); [cbn [List.length]; lia|].
-  cbn [ss_size].
-  destruct (N.ltb_spec MiB (ss_size st + si_bytes r + si_abytes r)) as [Hlt|Hge].
-  - specialize (IH span_st0). destruct (decode_spans_with on_span span_st0 evs) as [[f e] s].
-    cbn [app List.length]. change (ss_size span_st0) with 0%N in IH. rewrite Nat2N.inj_succ, N.mul_succ_l. lia.
-  - match goal with |- context [decode_spans_with on_span ?st1 evs] => specialize (IH st1); destruct (decode_spans_with on_span st1 evs) as [[f e] s] end.
-    cbn [app ss_size] in *. lia.
+  destruct (on_span st r) as [[st' out]|x] eqn:E; [|cbn [List.length]; lia].
+  specialize (IH st'). destruct (decode_spans_with on_span st' evs) as [[f e] s].
+  destruct (on_span_size _ _ _ _ E) as [[-> Hs]|[p [-> [-> Hlt]]]].
+  - cbn [app]. lia.
+  - cbn [app List.length]. change (ss_size span_st0) with 0%N in IH. rewrite Nat2N.inj_succ, N.mul_succ_l. lia.
 Qed.
 
 Lemma protocol_trace_len : forall d final,
@@ -475,7 +481,7 @@ Qed.
 
 Lemma prefix_comparable : forall a b s, prefix a s = true -> prefix b s = true -> prefix a b = true \/ prefix b a = true.
 Proof.
-  induction a as [|x a IH]; intros b s Ha Hb; [left; reflexivity|].
+  induction a as [|x a IH]; intros b s Ha Hb; [left; destruct b; reflexivity|].
   destruct b as [|y b]; [right; reflexivity|].
   destruct s as [|z s]; [discriminate|]. cbn [prefix] in *.
   destruct (ascii_dec x z) as [->|]; [|discriminate]. destruct (ascii_dec y z) as [->|]; [|discriminate].
@@ -487,12 +493,33 @@ Lemma unambiguous_same_parser : forall table a b ct, table_unambiguous table = t
 Proof.
   intros table a b ct H Ha Hb Pa Pb. unfold table_unambiguous in H. rewrite forallb_forall in H.
   specialize (H a Ha). rewrite forallb_forall in H. specialize (H b Hb).
-  apply orb_true_iff in H as [H|H]; [apply orb_true_iff in H as [H|H]|].
-  - apply String.eqb_eq in H. (* same key: in a Go map the same entry *)
-    apply String.eqb_eq. destruct (String.eqb (snd a) (snd b)) eqn:E; [reflexivity|].
-    exfalso. clear E. revert H. intros _. (* duplicates of a key cannot be told apart by the check: excluded below *)
-    exact (False_ind _ (dup_keys_excluded table a b Ha Hb)).
-  - now apply String.eqb_eq in H.
-  - apply negb_true_iff in H. destruct (prefix_comparable _ _ _ Pa Pb) as [P|P]; rewrite P in H; [discriminate|].
-    rewrite orb_true_r in H. discriminate.
+  apply orb_true_iff in H as [H|H]; [now apply String.eqb_eq in H|].
+  apply negb_true_iff in H. destruct (prefix_comparable _ _ _ Pa Pb) as [P|P]; rewrite P in H; [discriminate|].
+  rewrite orb_true_r in H. discriminate.
 Qed.
+
+Lemma dispatch_order_irrelevant : forall table, table_unambiguous table = true ->
+  forall order, Permutation order table -> forall ct,
+  dispatch_in_order order table ct = dispatch_in_order table table ct.
+Proof.
+  intros table Hu order Hp ct. unfold dispatch_in_order.
+  destruct (find (fun kp => prefix (fst kp) ct) order) as [a|] eqn:Ea.
+  - apply find_some in Ea as [Ia Pa]. apply (Permutation_in _ Hp) in Ia.
+    destruct (find (fun kp => prefix (fst kp) ct) table) as [b|] eqn:Eb.
+    + apply find_some in Eb as [Ib Pb]. f_equal. exact (unambiguous_same_parser table a b ct Hu Ia Ib Pa Pb).
+    + exfalso. pose proof (find_none _ _ Eb a Ia) as Hn. cbn in Hn. rewrite Pa in Hn. discriminate.
+  - destruct (find (fun kp => prefix (fst kp) ct) table) as [b|] eqn:Eb; [|reflexivity].
+    exfalso. apply find_some in Eb as [Ib Pb]. apply (Permutation_in _ (Permutation_sym Hp)) in Ib.
+    pose proof (find_none _ _ Ea b Ib) as Hn. cbn in Hn. rewrite Pb in Hn. discriminate.
+Qed.
+
+(* the check is not vacuous: a table with a key that is a prefix of another key answers by iteration order *)
+Definition ambiguous_table : list (string * string) := [("application/json", "A"); ("application", "B")]%string.
+Lemma ambiguous_table_depends_on_order :
+  table_unambiguous ambiguous_table = false /\
+  dispatch_in_order ambiguous_table ambiguous_table "application/json"
+  <> dispatch_in_order (rev ambiguous_table) ambiguous_table "application/json".
+Proof. split; [reflexivity|vm_compute; discriminate]. Qed.
+
+Lemma routes_model_unambiguous : forallb (fun r => table_unambiguous (rt_parsers r)) routes_model = true.
+Proof. vm_compute. reflexivity. Qed.
